@@ -405,107 +405,14 @@ var ruleC1 = &Rule{
 				add(fmt.Sprintf("column %s width %d matches the schema", col, n), t == fmt.Sprintf("FixedString(%d)", n), lit.Pos(), fmt.Sprintf("SetSize(%d) but the schema declares %s", n, t))
 			}
 			// (e) request processor: column ← model field, on SSA over the processor and the module functions it calls
-			fed := map[string]map[string]bool{} // acquirer field → model fields
-			paramBindings = map[*ssa.Parameter][]ssa.Value{}
-			{
-				seenF := map[*ssa.Function]bool{}
-				var scan func(f *ssa.Function, d int)
-				scan = func(f *ssa.Function, d int) {
-					if f == nil || seenF[f] || d > 3 || len(f.Blocks) == 0 {
-						return
-					}
-					seenF[f] = true
-					for _, b := range f.Blocks {
-						for _, ins := range b.Instrs {
-							if mc, ok := ins.(*ssa.MakeClosure); ok {
-								if cf, ok := mc.Fn.(*ssa.Function); ok {
-									scan(cf, d+1)
-								}
-							}
-							ci, ok := ins.(ssa.CallInstruction)
-							if !ok {
-								continue
-							}
-							com := ci.Common()
-							sc := com.StaticCallee()
-							if sc != nil && len(sc.Blocks) > 0 && fnPkgRel(sc) == "writer/service/impl" {
-								// one call site at a time: the helper is analysed with this site's arguments bound to its parameters
-								saved := map[*ssa.Parameter][]ssa.Value{}
-								for i, arg := range com.Args {
-									if i < len(sc.Params) {
-										saved[sc.Params[i]] = paramBindings[sc.Params[i]]
-										paramBindings[sc.Params[i]] = []ssa.Value{arg}
-									}
-								}
-								delete(seenF, sc)
-								scan(sc, d+1)
-								for p, v := range saved {
-									paramBindings[p] = v
-								}
-							}
-							mname := ""
-							var recv ssa.Value
-							var args []ssa.Value
-							if com.IsInvoke() {
-								mname, recv, args = com.Method.Name(), com.Value, com.Args
-							} else if sc != nil && sc.Signature.Recv() != nil && len(com.Args) > 0 {
-								mname, recv, args = sc.Name(), com.Args[0], com.Args[1:]
-							}
-							if !strings.HasPrefix(mname, "Append") || len(args) == 0 {
-								continue
-							}
-							// which acquirer field is the receiver built from?
-							af := ""
-							dependsOnValue(recv, func(v ssa.Value) bool {
-								if u, ok := v.(*ssa.UnOp); ok && u.Op == token.MUL {
-									if fa, ok := u.X.(*ssa.FieldAddr); ok && namedOf(fa.X.Type()) == ai.named {
-										k := fieldKey(fa.X.Type(), fa.Field)
-										af = k[strings.LastIndex(k, ".")+1:]
-										return true
-									}
-								}
-								if fa, ok := v.(*ssa.FieldAddr); ok && namedOf(fa.X.Type()) == ai.named {
-									k := fieldKey(fa.X.Type(), fa.Field)
-									af = k[strings.LastIndex(k, ".")+1:]
-									return true
-								}
-								return false
-							}, map[ssa.Value]bool{}, 0)
-							if af == "" {
-								continue
-							}
-							mf := ""
-							dependsOnValue(args[0], func(v ssa.Value) bool {
-								var fa *ssa.FieldAddr
-								if u, ok := v.(*ssa.UnOp); ok && u.Op == token.MUL {
-									fa, _ = u.X.(*ssa.FieldAddr)
-								}
-								if fa != nil {
-									if nt := namedOf(fa.X.Type()); nt != nil && nt.Obj().Pkg() != nil && nt.Obj().Pkg().Path() == pkgWModel {
-										k := fieldKey(fa.X.Type(), fa.Field)
-										mf = k[strings.LastIndex(k, ".")+1:]
-										return true
-									}
-								}
-								if fl, ok := v.(*ssa.Field); ok {
-									if nt := namedOf(fl.X.Type()); nt != nil && nt.Obj().Pkg() != nil && nt.Obj().Pkg().Path() == pkgWModel {
-										k := fieldKey(fl.X.Type(), fl.Field)
-										mf = k[strings.LastIndex(k, ".")+1:]
-										return true
-									}
-								}
-								return false
-							}, map[ssa.Value]bool{}, 0)
-							if fed[af] == nil {
-								fed[af] = map[string]bool{}
-							}
-							fed[af][orStr(mf, "?")] = true
-						}
-					}
+			fedFull := c.columnFeeds(procFn, ai)
+			fed := map[string]map[string]bool{}
+			for af, ms := range fedFull {
+				fed[af] = map[string]bool{}
+				for m := range ms {
+					fed[af][m[strings.LastIndex(m, ".")+1:]] = true
 				}
-				scan(procFn, 0)
 			}
-			paramBindings = nil
 			// the request processor is shared by every channel of the service (round-robin, sync + async): it must keep no
 			// state of its own between calls
 			if w := writesCapturedState(procFn); w != "" {
@@ -1105,4 +1012,200 @@ func writesCapturedState(fn *ssa.Function) string {
 		}
 	}
 	return ""
+}
+
+// columnFeeds: for the request processor of an insert service, which request-model fields ("Type.Field") feed the appends on each
+// acquirer column field. Computed on SSA over the processor and the functions of the package it calls, one call site at a time.
+func (c *Ctx) columnFeeds(procFn *ssa.Function, ai *acquirerInfo) map[string]map[string]bool {
+	fed := map[string]map[string]bool{}
+	paramBindings = map[*ssa.Parameter][]ssa.Value{}
+	{
+		seenF := map[*ssa.Function]bool{}
+		var scan func(f *ssa.Function, d int)
+		scan = func(f *ssa.Function, d int) {
+			if f == nil || seenF[f] || d > 3 || len(f.Blocks) == 0 {
+				return
+			}
+			seenF[f] = true
+			for _, b := range f.Blocks {
+				for _, ins := range b.Instrs {
+					if mc, ok := ins.(*ssa.MakeClosure); ok {
+						if cf, ok := mc.Fn.(*ssa.Function); ok {
+							scan(cf, d+1)
+						}
+					}
+					ci, ok := ins.(ssa.CallInstruction)
+					if !ok {
+						continue
+					}
+					com := ci.Common()
+					sc := com.StaticCallee()
+					if sc != nil && len(sc.Blocks) > 0 && fnPkgRel(sc) == "writer/service/impl" {
+						// one call site at a time: the helper is analysed with this site's arguments bound to its parameters
+						saved := map[*ssa.Parameter][]ssa.Value{}
+						for i, arg := range com.Args {
+							if i < len(sc.Params) {
+								saved[sc.Params[i]] = paramBindings[sc.Params[i]]
+								paramBindings[sc.Params[i]] = []ssa.Value{arg}
+							}
+						}
+						delete(seenF, sc)
+						scan(sc, d+1)
+						for p, v := range saved {
+							paramBindings[p] = v
+						}
+					}
+					mname := ""
+					var recv ssa.Value
+					var args []ssa.Value
+					if com.IsInvoke() {
+						mname, recv, args = com.Method.Name(), com.Value, com.Args
+					} else if sc != nil && sc.Signature.Recv() != nil && len(com.Args) > 0 {
+						mname, recv, args = sc.Name(), com.Args[0], com.Args[1:]
+					}
+					if !strings.HasPrefix(mname, "Append") || len(args) == 0 {
+						continue
+					}
+					// which acquirer field is the receiver built from?
+					af := ""
+					dependsOnValue(recv, func(v ssa.Value) bool {
+						if u, ok := v.(*ssa.UnOp); ok && u.Op == token.MUL {
+							if fa, ok := u.X.(*ssa.FieldAddr); ok && namedOf(fa.X.Type()) == ai.named {
+								k := fieldKey(fa.X.Type(), fa.Field)
+								af = k[strings.LastIndex(k, ".")+1:]
+								return true
+							}
+						}
+						if fa, ok := v.(*ssa.FieldAddr); ok && namedOf(fa.X.Type()) == ai.named {
+							k := fieldKey(fa.X.Type(), fa.Field)
+							af = k[strings.LastIndex(k, ".")+1:]
+							return true
+						}
+						return false
+					}, map[ssa.Value]bool{}, 0)
+					if af == "" {
+						continue
+					}
+					mf := ""
+					dependsOnValue(args[0], func(v ssa.Value) bool {
+						var fa *ssa.FieldAddr
+						if u, ok := v.(*ssa.UnOp); ok && u.Op == token.MUL {
+							fa, _ = u.X.(*ssa.FieldAddr)
+						}
+						if fa != nil {
+							if nt := namedOf(fa.X.Type()); nt != nil && nt.Obj().Pkg() != nil && nt.Obj().Pkg().Path() == pkgWModel {
+								k := fieldKey(fa.X.Type(), fa.Field)
+								mf = nt.Obj().Name() + "." + k[strings.LastIndex(k, ".")+1:]
+								return true
+							}
+						}
+						if fl, ok := v.(*ssa.Field); ok {
+							if nt := namedOf(fl.X.Type()); nt != nil && nt.Obj().Pkg() != nil && nt.Obj().Pkg().Path() == pkgWModel {
+								k := fieldKey(fl.X.Type(), fl.Field)
+								mf = nt.Obj().Name() + "." + k[strings.LastIndex(k, ".")+1:]
+								return true
+							}
+						}
+						return false
+					}, map[ssa.Value]bool{}, 0)
+					if fed[af] == nil {
+						fed[af] = map[string]bool{}
+					}
+					fed[af][orStr(mf, "?")] = true
+				}
+			}
+		}
+		scan(procFn, 0)
+	}
+	paramBindings = nil
+	return fed
+}
+
+type insertService struct {
+	ctor   *ssa.Function
+	acqFn  *ssa.Function
+	procFn *ssa.Function
+	ai     *acquirerInfo
+}
+
+// insertServices enumerates the insert services of writer/service/impl from SSA: a constructor is a function that stores function
+// values into fields named AcquireColumns and ProcessRequest of one struct.
+func (c *Ctx) insertServices() []insertService {
+	acqs := c.acquirers()
+	var out []insertService
+	funcVal := func(v ssa.Value) *ssa.Function {
+		for {
+			if ct, ok := v.(*ssa.ChangeType); ok {
+				v = ct.X
+				continue
+			}
+			break
+		}
+		switch f := v.(type) {
+		case *ssa.MakeClosure:
+			fn, _ := f.Fn.(*ssa.Function)
+			return fn
+		case *ssa.Function:
+			return f
+		}
+		return nil
+	}
+	for _, fn := range liveModuleFuncs(c, "writer/service/impl") {
+		var svc insertService
+		for _, b := range fn.Blocks {
+			for _, ins := range b.Instrs {
+				st, ok := ins.(*ssa.Store)
+				if !ok {
+					continue
+				}
+				fa, ok := st.Addr.(*ssa.FieldAddr)
+				if !ok {
+					continue
+				}
+				k := fieldKey(fa.X.Type(), fa.Field)
+				if strings.HasSuffix(k, ".AcquireColumns") {
+					svc.acqFn = funcVal(st.Val)
+				}
+				if strings.HasSuffix(k, ".ProcessRequest") {
+					svc.procFn = funcVal(st.Val)
+				}
+			}
+		}
+		if svc.acqFn == nil || svc.procFn == nil {
+			continue
+		}
+		svc.ctor = fn
+		seenF := map[*ssa.Function]bool{}
+		var scan func(f *ssa.Function, d int)
+		scan = func(f *ssa.Function, d int) {
+			if f == nil || seenF[f] || d > 2 {
+				return
+			}
+			seenF[f] = true
+			for _, b := range f.Blocks {
+				for _, ins := range b.Instrs {
+					if al, ok := ins.(*ssa.Alloc); ok {
+						if nt := namedOf(al.Type()); nt != nil && acqs[nt.Obj().Name()] != nil && svc.ai == nil {
+							svc.ai = acqs[nt.Obj().Name()]
+						}
+					}
+					if ci, ok := ins.(ssa.CallInstruction); ok {
+						if sc := ci.Common().StaticCallee(); sc != nil && len(sc.Blocks) > 0 && fnPkgRel(sc) == "writer/service/impl" {
+							if sc.Signature.Recv() != nil && svc.ai == nil {
+								if nt := namedOf(sc.Signature.Recv().Type()); nt != nil && acqs[nt.Obj().Name()] != nil {
+									svc.ai = acqs[nt.Obj().Name()]
+								}
+							}
+							scan(sc, d+1)
+						}
+					}
+				}
+			}
+		}
+		scan(svc.acqFn, 0)
+		if svc.ai != nil {
+			out = append(out, svc)
+		}
+	}
+	return out
 }
